@@ -308,7 +308,7 @@ def c11(tier, seed, replay, keep):
 
 INV_EVENTS = ("example.begin,example.end,scen.begin,scen.end,run.begin,run.end,h.phase,h.once.begin,h.once.end,inv.begin,inv.end,cinv.begin,cinv.end,"
               "h.custom.begin,h.custom.end,cleanup.reg,cleanup.run,cleanup.end,ctx,sm.begin,sm.end,sm.inv.begin,sm.inv.end,"
-              "sm.action.begin,sm.action.end,draw,call,h.repeat.more,h.action.res,h.action.none,h.overrun,tb.errorf,fuzz.begin,fuzz.end,harness.done")
+              "sm.action.begin,sm.action.end,draw,call,h.repeat.more,h.action.res,h.action.none,h.overrun,tb.errorf,tb.logf,fuzz.begin,fuzz.end,harness.done")
 INV_CFG = """SPECIFICATION Spec
 CONSTANTS
   Property = "%s"
